@@ -599,7 +599,8 @@ def c04_cases(tier, seed):
 PROPS["C04"] = {
     "theorems": ["C04_name_first_letter_only", "C04_plain_name_no_argument", "C04_namespaced_argument", "C04_show_is_vShow",
                  "C04_custom_resolved_by_name", "C04_expression_value", "C04_array_argument_keeps_suffix_modifiers", "C04_frame", "C04_html_sets_innerHTML", "C04_text_sets_textContent",
-                 "C04_one_binding_per_directive_in_order", "C04_element_bindings", "C04_binding_count"],
+                 "C04_one_binding_per_directive_in_order", "C04_element_bindings", "C04_binding_count",
+                 "C04_bindings_depend_on_own_attribute_only", "C04_element_complete_bindings"],
     "extra_modules": ["VueJsx.Props.C04b"],
     "cases": c04_cases,
     "post": literal_roundtrip_post,
